@@ -816,6 +816,7 @@ def proximity_facts(repo):
     ok = True
     pad = "fun _ _ _ => (-1, -1)"
     fallback, depth_order, bnan, arrays, coords_chunked, fb_single, res_order = "?", [], False, [], False, False, []
+    disjuncts, gc_guard = [], dict(metric="", test="", default="")
     ka = dict(NO_KEY)
     try:
         mod = parse(repo, rel)
@@ -827,6 +828,22 @@ def proximity_facts(repo):
         if top_if is None:
             raise ValueError("no fallback test")
         fallback = ast.unparse(top_if.test)
+        # the test as a list of disjuncts: falling back to one block is sound whatever the reason (single_block_is_whole), so the
+        # theorems ask for the presence of the disjuncts they need, not for one spelling of the whole test
+        disjuncts = [ast.unparse(v) for v in top_if.test.values] \
+            if isinstance(top_if.test, ast.BoolOp) and isinstance(top_if.test.op, ast.Or) else [fallback]
+        # the GREAT_CIRCLE guard in front of _process_dask (D28): `halo_covers_max_distance = True` and, under
+        # `if distance_metric == GREAT_CIRCLE ...`, `halo_covers_max_distance = <test>`
+        for st in proc.body:
+            if isinstance(st, ast.Assign) and len(st.targets) == 1 and isinstance(st.targets[0], ast.Name) \
+                    and st.targets[0].id == "halo_covers_max_distance":
+                gc_guard["default"] = ast.unparse(st.value)
+            if isinstance(st, ast.If) and not st.orelse:
+                asg = [x for x in st.body if isinstance(x, ast.Assign) and len(x.targets) == 1
+                       and isinstance(x.targets[0], ast.Name) and x.targets[0].id == "halo_covers_max_distance"]
+                if asg:
+                    gc_guard["metric"] = ast.unparse(st.test)
+                    gc_guard["test"] = "; ".join(ast.unparse(x) for x in st.body)
         # fallback branch: rechunk everything to one block, pads 0
         txt = " ".join(ast.unparse(st) for st in top_if.body)
         fb_single = ("rechunk({0: height, 1: width})" in txt and txt.count("rechunk") >= 3
@@ -869,6 +886,12 @@ def proximity_facts(repo):
            "  fallbackTest : String",
            "  /-- in that case raster, xs, ys are rechunked to one block of the raster's own shape and the depth is 0 -/",
            "  fallbackSingleBlock : Bool",
+           "  /-- the disjuncts of that test (a test that is not an `or` is its own single disjunct) -/",
+           "  fallbackDisjuncts : List String",
+           "  /-- GREAT_CIRCLE guard computed in front of `_process_dask`: value without the guard, the `if` that sets it, the test -/",
+           "  gcGuardDefault : String",
+           "  gcGuardWhen : String",
+           "  gcGuardTest : String",
            "  /-- (rows, columns) halo in cells as a function of max_distance and the x / y cell sizes -/",
            "  pad : Rat → Rat → Rat → Int × Int",
            "  /-- names in `depth=(…)`, row axis first -/",
@@ -881,12 +904,15 @@ def proximity_facts(repo):
            "  coordsChunkedLikeRaster : Bool"] + KEY_FIELD_DECLS + ["",
            f"def proximity_dask : ProximityDaskFact := {{\n  ok := {'true' if ok else 'false'}\n"
            f"  fallbackTest := {lean_str(fallback)}\n  fallbackSingleBlock := {'true' if fb_single else 'false'}\n"
+           f"  fallbackDisjuncts := [{', '.join(lean_str(e) for e in disjuncts)}]\n"
+           f"  gcGuardDefault := {lean_str(gc_guard['default'])}\n  gcGuardWhen := {lean_str(gc_guard['metric'])}\n"
+           f"  gcGuardTest := {lean_str(gc_guard['test'])}\n"
            f"  pad := {pad}\n  depthOrder := [{', '.join(lean_str(e) for e in depth_order)}]\n"
            f"  resOrder := [{', '.join(lean_str(e) for e in res_order)}]\n"
            f"  boundaryNaN := {'true' if bnan else 'false'}\n  arrays := [{', '.join(lean_str(e) for e in arrays)}]\n"
            f"  coordsChunkedLikeRaster := {'true' if coords_chunked else 'false'}\n" + key_fields(ka) + "}\n",
            "end XrsVerif.Gen"]
-    rep.update(ok=ok, pad=pad, fallback=fallback, depth_order=depth_order, arrays=arrays, key_name=ka["name"],
+    rep.update(ok=ok, pad=pad, fallback=fallback, fallback_disjuncts=disjuncts, gc_guard=gc_guard, depth_order=depth_order, arrays=arrays, key_name=ka["name"],
                key_token=ka["token"], opaque_kwargs=ka["opaque"])
     return "ProximityDask.lean", "\n".join(out) + "\n", rep
 
